@@ -157,6 +157,8 @@ fn bisim_step<F: Flt, D: Subject<F>>(
         pres.insert(res.present);
     }
     if total > 1 {
+        st.sample(|| json!({"path": path(), "type": l.type_name, "op": op_to_json(op), "alpha_operands": encs.iter().map(|e| parts_to_json(&e[0])).collect::<Vec<_>>(),
+            "encodings_per_operand": encs.iter().map(|e| e.len()).collect::<Vec<_>>(), "check": "alpha(result) identical for all encodings"}));
         st.count("alpha_tuples_reached_through_several_encodings", 1);
         st.nontrivial(hash64(&(l.type_name.as_str(), format!("{op:?}"), encs.iter().map(|e| e[0].bits()).collect::<Vec<_>>())));
     } else {
